@@ -7,7 +7,6 @@ import (
 	"io"
 	"math/rand"
 	"net"
-	"strconv"
 	"strings"
 	"sync"
 	"sync/atomic"
@@ -265,10 +264,11 @@ func transportScenario(kind int, r *rand.Rand) (lines [][2]string) {
 		}
 		return groupOf[a]
 	}
-	cid := func(a string) int {
-		v, _ := strconv.Atoi(strings.TrimPrefix(a, "#"))
-		return v
-	}
+	// connections are numbered locally, a new number at every T.New: the recorder's ids follow addresses, and the address
+	// of a connection that has exited may be handed to a later one
+	connOf := map[string]int{}
+	nconns, nexited := 0, 0
+	cid := func(a string) int { return connOf[a] }
 	var es []string
 	exited := map[string]bool{}
 	for _, e := range evs {
@@ -281,6 +281,9 @@ func transportScenario(kind int, r *rand.Rand) (lines [][2]string) {
 		switch e.Kind {
 		case "T.New":
 			known[e.Args[0]] = true
+			nconns++
+			connOf[e.Args[0]] = nconns
+			delete(exited, e.Args[0])
 			es = append(es, fmt.Sprintf("N%d:%d", cid(e.Args[0]), gid(e.Args[1])))
 		case "T.Grab":
 			es = append(es, fmt.Sprintf("G%d", cid(e.Args[0])))
@@ -301,6 +304,9 @@ func transportScenario(kind int, r *rand.Rand) (lines [][2]string) {
 			}
 			es = append(es, fmt.Sprintf("L%d:%d", cid(e.Args[0]), a))
 		case "T.Exit":
+			if !exited[e.Args[0]] {
+				nexited++
+			}
 			exited[e.Args[0]] = true
 			es = append(es, fmt.Sprintf("X%d", cid(e.Args[0])))
 		case "T.Remove":
@@ -309,7 +315,7 @@ func transportScenario(kind int, r *rand.Rand) (lines [][2]string) {
 			es = append(es, fmt.Sprintf("C%d", gid(e.Args[0])))
 		}
 	}
-	live := len(known) - len(exited)
+	live := nconns - nexited
 	tr2 := "-"
 	if len(es) > 0 {
 		tr2 = strings.Join(es, ";")
